@@ -336,13 +336,14 @@ func (s *Stack) scrubIDs(msg string) string {
 // ---------- actor calls ----------
 
 type CallSpec struct {
-	Actor   string // "rt" or extension name
-	What    string // canonical call name used in the log
-	Method  string
-	Path    string
-	Headers map[string]string
-	Body    []byte
-	Proc    *Proc // process on whose behalf the call is made (cancelled when it exits)
+	Actor      string // "rt" or extension name
+	What       string // canonical call name used in the log
+	Method     string
+	Path       string
+	Headers    map[string]string
+	Body       []byte
+	BodyReader io.Reader // if set, used instead of Body (streamed, chunked)
+	Proc       *Proc     // process on whose behalf the call is made (cancelled when it exits)
 	// Render turns the response into the canonical result text
 	Render func(status int, hdr http.Header, body []byte) string
 }
@@ -371,7 +372,12 @@ func (s *Stack) doCall(ctx context.Context, call *Call, cs CallSpec) {
 		call.cancel()
 	}()
 	tr := &httptrace.ClientTrace{WroteRequest: func(httptrace.WroteRequestInfo) { call.wrote.Store(true) }}
-	req, err := http.NewRequestWithContext(httptrace.WithClientTrace(ctx, tr), cs.Method, "http://"+s.Addr+cs.Path, bytes.NewReader(cs.Body))
+	var rd io.Reader = bytes.NewReader(cs.Body)
+	if cs.BodyReader != nil {
+		rd = cs.BodyReader
+		call.wrote.Store(true) // the upload is deliberately incomplete: do not wait for it
+	}
+	req, err := http.NewRequestWithContext(httptrace.WithClientTrace(ctx, tr), cs.Method, "http://"+s.Addr+cs.Path, rd)
 	if err != nil {
 		s.L.Add("%s.%s=badrequest", cs.Actor, cs.What)
 		return
